@@ -13,7 +13,7 @@ Proof.
   intros s o Hinv HS. unfold exec.
   destruct (i_ports s Hinv) as [P1 _].
   assert (MV : forall w np nn, sinks_exact (fst (move s w np nn))).
-  { intros w np nn x Hx. destruct (move_frame s w np nn) as [_ [E2 [E3 [_ [_ [E6 [E7 [E8 [E9 E10]]]]]]]]].
+  { intros w np nn x Hx. destruct (move_frame s w np nn) as [_ [E2 [E3 [_ [_ [E6 [E7 [E8 [E9 [E10 _]]]]]]]]]].
     rewrite E2 in Hx. rewrite E6, E3, (HS x Hx). apply filter_seq_ext. intros q Hq. unfold reader_b. now rewrite E7, E8, E9, E10. }
   assert (AP : forall k o0 n w0, sinks_exact (fst (add_port s k o0 n w0))).
   { intros k o0 n w0. unfold add_port.
@@ -27,12 +27,18 @@ Proof.
     unfold upd. destruct (Nat.eqb_spec w w0) as [E|E].
     - subst w0. rewrite Nat.eqb_refl. cbn. destruct (oprim s o0 && reads k); [reflexivity | now rewrite app_nil_r].
     - destruct (Nat.eqb_spec w0 w) as [E2|E2]; [congruence|]. cbn. now rewrite app_nil_r. }
-  destruct o as [[p0|] n0 prim|p0 n0 width|o n0 w|o n0 w|o n0 w|w n0|w p0|w p0 n0]; cbn [step]; auto.
+  destruct o as [[p0|] n0 prim|p0 n0 width|p0 n0 width|o n0 w|o n0 w|o n0 w|w n0|w p0|w p0 n0]; cbn [step]; auto.
   - unfold new_logic. destruct (negb _); [exact HS|]. destruct (tmem _ _); [exact HS|].
     intros w Hw. cbn in Hw. cbn. rewrite (HS w Hw). apply filter_seq_ext. intros q Hq. unfold reader_b. cbn.
     rewrite upd_other; auto. destruct (P1 q Hq). lia.
   - intros w Hw. cbn in Hw. cbn. rewrite (HS w Hw). apply filter_seq_ext. intros q Hq. unfold reader_b. cbn.
     rewrite upd_other; auto. destruct (P1 q Hq). lia.
+  - unfold new_wire. destruct (negb _); [exact HS|]. destruct (tmem _ _); [exact HS|].
+    intros w Hw. cbn in Hw. cbn. unfold upd at 1. destruct (Nat.eqb_spec w (nwire s)) as [E|E].
+    + subst w. symmetry. destruct (filter _ _) as [|x l] eqn:F; auto. exfalso.
+      assert (X : In x (x :: l)) by now left. rewrite <- F in X. apply In_filter_seq in X. destruct X as [A B].
+      unfold reader_b in B. cbn in B. destruct (P1 x A) as [_ Hlt]. destruct (Nat.eqb_spec (pwire s x) (nwire s)); [lia | discriminate].
+    + rewrite (HS w) by lia. apply filter_seq_ext. intros q Hq. reflexivity.
   - unfold new_wire. destruct (negb _); [exact HS|]. destruct (tmem _ _); [exact HS|].
     intros w Hw. cbn in Hw. cbn. unfold upd at 1. destruct (Nat.eqb_spec w (nwire s)) as [E|E].
     + subst w. symmetry. destruct (filter _ _) as [|x l] eqn:F; auto. exfalso.
@@ -56,4 +62,67 @@ Lemma sinks_exact_b_iff : forall s, sinks_exact_b s = true <-> sinks_exact s.
 Proof.
   intros s. unfold sinks_exact_b, sinks_exact. rewrite forallb_seq.
   split; intros H w Hw; [apply list_eqb_nat | apply list_eqb_nat]; auto.
+Qed.
+
+(* ---------------------------------------------------------------- BidirWire.sources *)
+Lemma sources_step : forall s o, Inv s -> sources_exact s -> sources_exact (exec s o).
+Proof.
+  intros s o Hinv HS. unfold exec.
+  destruct (i_ports s Hinv) as [P1 _].
+  assert (MV : forall w np nn, sources_exact (fst (move s w np nn))).
+  { intros w np nn x Hx. destruct (move_frame s w np nn) as [_ [E2 [E3 [_ [E5 [_ [E7 [E8 [E9 [E10 [E11 E12]]]]]]]]]]].
+    rewrite E2 in Hx. rewrite E12, E11, E5, E3. destruct (HS x Hx) as [A B]. split; auto. rewrite A.
+    destruct (wbidir s x); auto. apply filter_seq_ext. intros q Hq. unfold driver_b. now rewrite E7, E8, E9, E10. }
+  assert (NL : forall s0 par n prim, nwire s0 = nwire s -> nport s0 = nport s -> nobj s0 = nobj s -> oprim s0 = oprim s ->
+               wsource s0 = wsource s -> wsources s0 = wsources s -> wbidir s0 = wbidir s ->
+               pkind s0 = pkind s -> pparent s0 = pparent s -> pwire s0 = pwire s -> sources_exact (alloc_obj s0 par n prim)).
+  { intros s0 par n prim E2 E3 E1 E8 E11 E12 E15 E16 E17 E18 w Hw. cbn in Hw. rewrite E2 in Hw. cbn.
+    rewrite ?E3, ?E1, ?E8, ?E11, ?E12, ?E15. destruct (HS w Hw) as [A B]. split; auto. rewrite A.
+    destruct (wbidir s w); auto. apply filter_seq_ext. intros q Hq. unfold driver_b. cbn. rewrite ?E16, ?E17, ?E18, ?E8, ?E1.
+    rewrite upd_other; auto. destruct (P1 q Hq). lia. }
+  assert (NW : forall p n width bd, sources_exact (fst (new_wire s p n width bd))).
+  { intros p n width bd. unfold new_wire. destruct (negb _); [exact HS|]. destruct (tmem _ _); [exact HS|].
+    intros w Hw. cbn in Hw. cbn. unfold upd. destruct (Nat.eqb_spec w (nwire s)) as [E|E].
+    - subst w. split; auto. destruct bd; auto. symmetry. destruct (filter _ _) as [|x l] eqn:F; auto. exfalso.
+      assert (X : In x (x :: l)) by now left. rewrite <- F in X. apply In_filter_seq in X. destruct X as [A B].
+      unfold driver_b in B. cbn in B. destruct (P1 x A) as [_ Hlt]. destruct (Nat.eqb_spec (pwire s x) (nwire s)); [lia | discriminate].
+    - destruct (HS w) as [A B]; [lia|]. split; auto. }
+  assert (AP : forall k o0 n w0, sources_exact (fst (add_port s k o0 n w0))).
+  { intros k o0 n w0. unfold add_port.
+    destruct (negb _); [exact HS|]. destruct (_ && _ && _ && _); [exact HS|].
+    intros w Hw. cbn in Hw. destruct (HS w Hw) as [A B]. cbn. split.
+    - match goal with |- _ = (if _ then filter (driver_b ?S _) _ else _) => set (S' := S) end.
+      rewrite seq_S, filter_app. cbn [filter Nat.add].
+      assert (OLD : filter (driver_b S' w) (seq 0 (nport s)) = filter (driver_b s w) (seq 0 (nport s))).
+      { apply filter_seq_ext. intros q Hq. unfold driver_b, S'. cbn. rewrite !upd_other by lia. reflexivity. }
+      rewrite OLD. unfold driver_b, S'. cbn. unfold filter at 2. rewrite !upd_same.
+      unfold upd. destruct (Nat.eqb_spec w w0) as [E|E].
+      + subst w0. rewrite Nat.eqb_refl. cbn. rewrite A. destruct (wbidir s w).
+        * rewrite andb_true_r. destruct (oprim s o0 && drives k); [reflexivity | now rewrite app_nil_r].
+        * rewrite andb_false_r. reflexivity.
+      + destruct (Nat.eqb_spec w0 w) as [E2|E2]; [congruence|]. cbn. rewrite A. destruct (wbidir s w); auto. now rewrite app_nil_r.
+    - intros Hb. unfold upd. destruct (Nat.eqb_spec w w0) as [E|E]; auto. subst w0. rewrite Hb. cbn. rewrite andb_false_r. auto. }
+  destruct o as [[p0|] n0 prim|p0 n0 width|p0 n0 width|o n0 w|o n0 w|o n0 w|w n0|w p0|w p0 n0]; cbn [step]; auto.
+  - unfold new_logic. destruct (negb _); [exact HS|]. destruct (tmem _ _); [exact HS|]. apply NL; reflexivity.
+  - apply NL; reflexivity.
+Qed.
+
+Lemma sources_run : forall ops, sources_exact (run ops).
+Proof.
+  intros ops. unfold run.
+  assert (G : forall ops s, Inv s -> sources_exact s -> sources_exact (run_from s ops)).
+  { induction ops0 as [|o ops0 IH]; intros s Hinv HS; [exact HS|].
+    unfold run_from in *. cbn. apply IH.
+    - unfold exec. destruct (step s o) as [s' out] eqn:E. cbn. eapply step_inv; eauto.
+    - now apply sources_step. }
+  apply G; [exact inv_init|]. intros w Hw. cbn in Hw. lia.
+Qed.
+
+Lemma sources_exact_b_iff : forall s, sources_exact_b s = true <-> sources_exact s.
+Proof.
+  intros s. unfold sources_exact_b, sources_exact. rewrite forallb_seq. split; intros H w Hw.
+  - specialize (H w Hw). apply andb_true_iff in H. destruct H as [A B]. apply list_eqb_nat in A. split; auto.
+    intros Hb. rewrite Hb in B. cbn in B. destruct (wsource s w); [discriminate | reflexivity].
+  - destruct (H w Hw) as [A B]. apply andb_true_iff. split; [now apply list_eqb_nat|].
+    destruct (wbidir s w); auto. cbn. rewrite B; auto.
 Qed.
